@@ -257,7 +257,9 @@ func (e *Engine) acquire(st *State, class string, ref string, fx *FnExec) {
 	}
 	snap := st.clone()
 	e.lockOld[class] = snap
-	if st.acq == nil {
+	if st.acq == nil && fx != nil && fx.isTop {
+		// two-state specs of an atomic function refer to the state at its own first acquire; an acquire inside an
+		// inlined helper does not make the caller atomic
 		st.acq = snap
 	}
 }
@@ -317,6 +319,20 @@ func (fx *FnExec) checkAccess(st *State, loc *Loc, write bool, pos token.Pos) {
 	}
 	if first == "" {
 		return // whole-struct access
+	}
+	if write {
+		// frame: a function declaring `fresh_writes T` may write fields of T only on objects it owns
+		if top := fx.topFx(); top.con != nil {
+			for _, fw := range top.con.FreshWrites {
+				short := fw
+				if i := strings.Index(fw, "."); i >= 0 {
+					short = fw[i+1:]
+				}
+				if short == n.Obj().Name() {
+					e.addObl("frame", "fresh:"+n.Obj().Name()+"."+first, []string{"C17"}, st, sel(e.heapGet(st, e.keyMine()), loc.Ref), pos)
+				}
+			}
+		}
 	}
 	pk := n.Obj().Pkg().Path() + "." + n.Obj().Name() + "." + first
 	p := e.w.spec.Protects[pk]
@@ -506,7 +522,7 @@ func (fx *FnExec) blockingPoint(st *State, what string, pos token.Pos, chans []s
 		if err == nil {
 			cv := env.eval(ex)
 			if cv != nil && len(cv.V.L) == 1 {
-				done := e.c.fun("ctx_done", []Sort{SInt}, SInt)
+				done := e.c.fun("uf_ctx_done", []Sort{SInt}, SInt)
 				want := app(done, cv.V.L[0])
 				goal := "false"
 				for _, c := range chans {
@@ -838,6 +854,7 @@ func (fx *FnExec) applyContract(st *State, callee *ssa.Function, con *FnContract
 		e.addObl("contract", fmt.Sprintf("call:%s:requires%s", shortFnKey(key), rq.labelStr()), fx.clauseTags(rq), st, g, pos)
 		e.assume(st, g)
 	}
+	fx.checkCallSiteAsserts(st, key, pos)
 	fx.checkHeldAtCall(st, con, env, key, pos)
 	// recursion: the callee's variant must be smaller than the caller's
 	if top := fx.topFx(); callee != nil && callee == top.fn {
@@ -941,6 +958,15 @@ func (e *Engine) calleeWriteSet(callee *ssa.Function, con *FnContract) *WriteSet
 	e.wsCache[key] = ws // recursion guard: empty while computing
 	if con.ModDeclared || callee == nil || len(callee.Blocks) == 0 {
 		for _, m := range con.Modifies {
+			if strings.HasPrefix(m, "fresh ") {
+				for _, k := range e.freshTypeKeys(strings.TrimSpace(m[6:]), con.Pkg) {
+					if _, ok := ws.keys[k]; !ok {
+						ws.keys[k] = true
+					}
+				}
+				ws.keys[e.keyMine()] = true
+				continue
+			}
 			for _, k := range e.modifiesKeys(m, con.Pkg) {
 				ws.keys[k] = false
 			}
@@ -1222,10 +1248,27 @@ func (fx *FnExec) execBuiltin(st *State, in ssa.CallInstruction, b *ssa.Builtin,
 		for i, l := range e.fl.leaves(et) {
 			k := e.keyElem(et, i)
 			h := e.heapGet(st, k)
+			ha := e.heapGet(st, e.keyElemOf(et, i, a.L[0]))
+			hb := e.heapGet(st, e.keyElemOf(et, i, b2.L[0]))
 			na := e.c.fresh("appc", arrSort(SInt, l.Sort))
 			// pointwise definition over absolute positions
-			e.assume(st, fmt.Sprintf("(forall ((j!q Int)) (! (and (=> (and (<= 0 j!q) (< j!q %s)) (= (select %s j!q) (select (select %s %s) (+ %s j!q)))) (=> (and (<= %s j!q) (< j!q %s)) (= (select %s j!q) (select (select %s %s) (+ %s (- j!q %s)))))) :pattern ((select %s j!q))))",
-				n1, na, h, a.L[0], a.L[1], n1, nl, na, h, b2.L[0], b2.L[1], n1, na))
+			srcA := fmt.Sprintf("(select (select %s %s) (+ %s j!q))", ha, a.L[0], a.L[1])
+			extraPat := ""
+			if a.L[1] == "0" {
+				// no arithmetic in the source position: also trigger on the source element (old elements keep their index)
+				srcA = fmt.Sprintf("(select (select %s %s) j!q)", ha, a.L[0])
+				extraPat = " :pattern (" + srcA + ")"
+			}
+			e.assume(st, fmt.Sprintf("(forall ((j!q Int)) (! (and (=> (and (<= 0 j!q) (< j!q %s)) (= (select %s j!q) %s)) (=> (and (<= %s j!q) (< j!q %s)) (= (select %s j!q) (select (select %s %s) (+ %s (- j!q %s)))))) :pattern ((select %s j!q))%s))",
+				n1, na, srcA, n1, nl, na, hb, b2.L[0], b2.L[1], n1, na, extraPat))
+			// the appended elements, by position (common case: one element)
+			if isNumLit(n2) {
+				var cnt int
+				fmt.Sscan(n2, &cnt)
+				for q := 0; q < cnt && q < 4; q++ {
+					e.assume(st, fmt.Sprintf("(= (select %s (+ %s %d)) (select (select %s %s) (+ %s %d)))", na, n1, q, hb, b2.L[0], b2.L[1], q))
+				}
+			}
 			e.heapWrite(st, k, store(h, arr, na), arr)
 		}
 		return &Val{L: []string{arr, "0", nl}}
@@ -1404,4 +1447,66 @@ func (e *Engine) assumeTrackedWF(st *State) {
 		a := e.heapGet(st, k)
 		e.assume(st, fmt.Sprintf("(forall ((r!q Int)) (! (=> (select %s r!q) (and (< 0 r!q) (<= r!q %s))) :pattern ((select %s r!q))))", a, e.heapGet(st, e.keyAlloc()), a))
 	}
+}
+
+// checkCallSiteAsserts: `callsite <callee>#n asserts e` clauses of the enclosing top-level function: e is proved in the
+// caller's state immediately before the n-th call of callee (in program order of first execution).
+func (fx *FnExec) checkCallSiteAsserts(st *State, key string, pos token.Pos) {
+	e := fx.e
+	top := fx.topFx()
+	if top.con == nil || len(top.con.CallSites) == 0 || e.suppress > 0 {
+		return
+	}
+	short := shortFnKey(key)
+	name := short[strings.LastIndex(short, ".")+1:]
+	if top.callCount == nil {
+		top.callCount = map[string]int{}
+	}
+	top.callCount[name]++
+	n := top.callCount[name]
+	for _, cs := range top.con.CallSites {
+		if cs.Callee != name || cs.N != n {
+			continue
+		}
+		env := top.specEnv(st, top.oldFor(st), nil)
+		for i, nt := range env.evalSplit(cs.C.Expr) {
+			e.addObl("contract", fmt.Sprintf("callsite:%s#%d%s%s", name, n, cs.C.labelStr(), partName(nt, i)), top.clauseTags(cs.C), st, nt.term, pos)
+		}
+		cs.seen = true
+	}
+}
+
+// freshTypeKeys: the heap keys a callee that only allocates and initialises objects of type T may write
+// (fields of T; element arrays of slices of *T and of the slice-typed fields of T).
+func (e *Engine) freshTypeKeys(tname string, pkg string) []string {
+	te := &STypeExpr{Kind: "named", Name: tname}
+	if i := strings.Index(tname, "."); i >= 0 {
+		te = &STypeExpr{Kind: "named", Pkg: tname[:i], Name: tname[i+1:]}
+	}
+	t := e.resolveType(te, pkg)
+	if t == nil {
+		e.specErrors = append(e.specErrors, "modifies fresh: cannot resolve "+tname)
+		return nil
+	}
+	var out []string
+	for i := range e.fl.leaves(t) {
+		out = append(out, e.keyField(t, i))
+	}
+	if k := e.keyIsA(t); k != "" {
+		out = append(out, k)
+	}
+	pt := types.NewPointer(t)
+	for i := range e.fl.leaves(pt) {
+		out = append(out, e.keyElem(pt, i))
+	}
+	if su, ok := t.Underlying().(*types.Struct); ok {
+		for i := 0; i < su.NumFields(); i++ {
+			if sl, ok := su.Field(i).Type().Underlying().(*types.Slice); ok {
+				for j := range e.fl.leaves(sl.Elem()) {
+					out = append(out, e.keyElem(sl.Elem(), j))
+				}
+			}
+		}
+	}
+	return out
 }
